@@ -186,7 +186,7 @@ def find_functions(file, toks):
                 elif x == ">>" and depth > 0: depth = max(0, depth - 2)
                 elif x == "(" and depth == 0:
                     p = k; break
-            if p is None or p == 0 or "=" in d[:p]:
+            if p is None or p == 0 or ("=" in d[:p] and "operator" not in d[:p]):
                 # initializer / unknown brace at declaration scope: skip it
                 i = end + 1
                 if i < n and toks[i][0] == ";":
@@ -270,6 +270,69 @@ def impl_type(tokens, file):
             if q == "Manifold": return True
             if q is None and os.path.basename(file) not in SKIP_UNQUALIFIED: return True
     return False
+
+
+def vec_semantics(repo):
+    """Read from src/vec.h / shared.h / impl.h how SharedVec copies behave (share vs deep copy) and check that
+    MakeUnique / move still are what the Coq model (CowDefs.v) says.  Fails loudly on anything else."""
+    path = os.path.join(repo, "src/vec.h")
+    toks = lex(path)
+    funcs, _ = find_functions(path, toks)
+    def body(fn):
+        return "".join(t[0] for t in toks[fn.body[0]:fn.body[1] + 1])
+    def par(fn):
+        return "".join(fn.params)
+    sem = {}
+    cc = [f for f in funcs if f.name == "Vec" and par(f).startswith("constVec<T,true>&")]
+    if len(cc) != 1:
+        raise TranslateError("vec.h: cannot find the SharedVec copy constructor Vec(const Vec<T, true>&) (found %d)" % len(cc))
+    b = body(cc[0]); v = cc[0].params[-1]
+    deep = "*this=Vec(%s.view());" % v in b
+    share = "*this=%s;" % v in b
+    if share and ("ifconstexpr(shared){" in b) and re.search(r"ifconstexpr\(shared\)\{[^}]*\*this=%s;" % v, b):
+        sem["copy_ctor_shares"] = True
+        if deep and not re.search(r"\}else\{\*this=Vec\(%s\.view\(\)\);\}" % v, b):
+            raise TranslateError("vec.h:%d copy constructor both shares and deep-copies in a way that is not understood: %s" % (cc[0].line, b))
+    elif deep and not share:
+        sem["copy_ctor_shares"] = False
+    else:
+        raise TranslateError("vec.h:%d SharedVec copy constructor not understood: %s" % (cc[0].line, b))
+    ca = [f for f in funcs if f.name == "operator=" and par(f) in ("constVec&other", "constVec<T,shared>&other")]
+    if len(ca) != 1:
+        raise TranslateError("vec.h: cannot find Vec::operator=(const Vec&) (found %d)" % len(ca))
+    b = body(ca[0])
+    m = re.search(r"ifconstexpr\(shared\)\{([^}]*)\}", b)
+    if m and "other.count_->fetch_add(1);" in m.group(1) and "this->ptr_=other.ptr_;" in m.group(1) and "this->count_=other.count_;" in m.group(1) and "dealloc();" in b:
+        sem["copy_assign_shares"] = True
+    elif "fetch_add" not in b and "malloc" in b and "this->ptr_=other.ptr_" not in b:
+        sem["copy_assign_shares"] = False
+    else:
+        raise TranslateError("vec.h:%d SharedVec copy assignment not understood: %s" % (ca[0].line, b))
+    mu = [f for f in funcs if f.name == "MakeUnique"]
+    if len(mu) != 1 or body(mu[0]) != "{ifconstexpr(shared){if(count_->load()>1){*this=Vec<T,true>(this->view());}}}":
+        raise TranslateError("vec.h: SharedVec::MakeUnique is no longer `if (count_->load() > 1) *this = Vec<T, true>(this->view())`: %s"
+                             % (body(mu[0]) if mu else "missing"))
+    mv = [f for f in funcs if f.name == "Vec" and par(f).startswith("Vec<T,true>&&")]
+    if len(mv) != 1 or "this->count_=other.count_;other.count_=nullptr;" not in body(mv[0]) or "moveContent(other);" not in body(mv[0]):
+        raise TranslateError("vec.h: SharedVec move constructor not understood")
+    ma = [f for f in funcs if f.name == "operator=" and par(f) == "Vec&&other"]
+    if len(ma) != 1 or "this->count_=other.count_;other.count_=nullptr;" not in body(ma[0]) or "dealloc();" not in body(ma[0]):
+        raise TranslateError("vec.h: SharedVec move assignment not understood")
+    de = [f for f in funcs if f.name == "dealloc"]
+    if len(de) != 1 or "if(count_==nullptr||count_->fetch_sub(1)>1)return;" not in body(de[0]):
+        raise TranslateError("vec.h: SharedVec::dealloc no longer frees only when the last handle goes away")
+    au = [f for f in funcs if f.name == "AssertUnique"]
+    sem["writes_checked_only_by_ASSERT"] = bool(au) and "ASSERT(" in body(au[0])
+    # element writes go through VecView::operator[] (no check at all); Halfedges / Impl use the implicit copy operations
+    sh = "".join(t[0] for t in lex(os.path.join(repo, "src/shared.h")))
+    if re.search(r"Halfedges\((const)?Halfedges&", sh) or re.search(r"Halfedges&operator=", sh):
+        raise TranslateError("shared.h: class Halfedges now declares its own copy/move operations: not modelled")
+    if "voidMakeUnique(){start_.MakeUnique();paired_.MakeUnique();propVert_.MakeUnique();}" not in sh:
+        raise TranslateError("shared.h: Halfedges::MakeUnique no longer makes start_, paired_ and propVert_ unique")
+    ih = "".join(t[0] for t in lex(os.path.join(repo, "src/impl.h")))
+    if re.search(r"[^:\w]Impl\((const)?Impl&", ih) or re.search(r"Impl&operator=", ih):
+        raise TranslateError("impl.h: Manifold::Impl now declares its own copy/move operations: not modelled")
+    return sem
 
 
 class Tr:
@@ -655,6 +718,7 @@ class Tr:
 
 
 def build(repo):
+    sem = vec_semantics(repo)
     tr = Tr(repo)
     A = [tr.analyse(fn) for fn in tr.funcs]
     # free functions with Impl params (by name)
@@ -821,7 +885,8 @@ def build(repo):
                 if isinstance(it[3], tuple) and it[3][0] == "o":
                     nm = a["objs"][it[3][1]]["name"]
                     src = R_([nm], pos)
-                resolved.append((pos, "ENewCopy", src)); newlocal(it[2], pos)
+                k_new = newlocal(it[2], pos)
+                resolved.append((pos, "ENewCopy", src, ("l", k_new)))
             elif kind == "alias":
                 if it[2]: alias[it[2]] = alias.get(it[3], it[3])
             elif kind == "mu":
@@ -919,10 +984,19 @@ def build(repo):
         for r in a["resolved"]:
             pos = r[0]
             if r[1] == "ENewFresh": evs.append((pos, "ENewFresh"))
-            elif r[1] in ("ENewCopy", "EMakeUnique", "EAssignFresh", "EMoveOut"):
+            elif r[1] == "ENewCopy":
+                # Impl copy construction = SharedVec copy constructor on each buffer (semantics read from vec.h)
+                evs.append((pos, "ENewCopy %d" % obj_num(a, r[2])))
+                if sem["copy_ctor_shares"]:
+                    evs.append((pos, "EAssignShare %d %d" % (obj_num(a, r[3]), obj_num(a, r[2]))))
+            elif r[1] in ("EMakeUnique", "EAssignFresh", "EMoveOut"):
                 evs.append((pos, "%s %d" % (r[1], obj_num(a, r[2]))))
             elif r[1] == "EWrite": evs.append((pos, "EWrite %d %d" % (obj_num(a, r[2]), r[3])))
-            elif r[1] == "EAssignShare": evs.append((pos, "EAssignShare %d %d" % (obj_num(a, r[2]), obj_num(a, r[3]))))
+            elif r[1] == "EAssignShare":
+                if sem["copy_assign_shares"]:
+                    evs.append((pos, "EAssignShare %d %d" % (obj_num(a, r[2]), obj_num(a, r[3]))))
+                else:
+                    evs.append((pos, "EAssignFresh %d" % obj_num(a, r[2])))     # deep-copying assignment: own buffers
             elif r[1] in ("CALL", "FCALL"):
                 cs = r[4]
                 calls = ["ECall %d [%s]" % (index[id(c)], "; ".join(map(str, call_args(a, r, ci)))) for ci, c in enumerate(cs)]
@@ -983,7 +1057,12 @@ def build(repo):
             missing.append(name); continue
         for i in idxs:
             if meta[i]["nparams"] != 1: continue
-            body = ["ENewFresh", "EAssignShare 1 0", "ECall %d [1]" % i]
+            if sem["copy_assign_shares"]:
+                body = ["ENewFresh", "EAssignShare 1 0", "ECall %d [1]" % i]
+            elif sem["copy_ctor_shares"]:
+                body = ["ENewCopy 0", "EAssignShare 1 0", "ECall %d [1]" % i]
+            else:
+                body = ["ENewCopy 0", "ECall %d [1]" % i]
             lines.append("  (* %d <Impl b; b = a (assignment shares the buffers); b.%s()> *)\n  mkFn 1 true [%s]" % (len(meta), R[i]["fn"].qual, "; ".join(body)))
             meta.append({"index": len(meta), "name": "<copy-then-call %s>" % R[i]["fn"].qual, "file": meta[i]["file"], "line": meta[i]["line"],
                          "entry": True, "nparams": 1, "objects": ["ext:any published Impl"], "body": body, "n_mu": 0, "n_write": 0, "n_calls": 1,
@@ -992,7 +1071,13 @@ def build(repo):
         raise TranslateError("self-protecting Impl methods named in corpus/C05/self_protecting.txt are gone or no longer touch halfedge storage: %s" % ", ".join(missing))
     v = ("(* GENERATED by translate/c05_cow.py from %s -- do not edit *)\n"
          "From Coq Require Import List.\nFrom MV Require Import Proto.CowDefs.\nImport ListNotations.\n\n"
-         "Definition table : list fn := [\n%s\n].\n" % (repo, ";\n".join(lines)))
+         "(* SharedVec semantics read from src/vec.h: %s *)\n"
+         "Definition vec_copy_ctor_shares : bool := %s.\nDefinition vec_copy_assign_shares : bool := %s.\n\n"
+         "Definition table : list fn := [\n%s\n].\n" % (repo, json.dumps(sem, sort_keys=True),
+                                                      "true" if sem["copy_ctor_shares"] else "false",
+                                                      "true" if sem["copy_assign_shares"] else "false", ";\n".join(lines)))
+    for m_ in meta:
+        m_["vec_semantics"] = sem
     return v, meta, tr.kernels
 
 
